@@ -30,21 +30,118 @@ MAX_MINIMISE_CLASSES = 10
 PER_CLASS_TRIES = 8
 
 
+_PREIMPORTED = [False]
+
+
+def _preimport():
+    """Import everything a session can touch, WITHOUT running any library code beyond module import, so that the
+    per-session children forked from this process all start from the same pristine state."""
+    if _PREIMPORTED[0]:
+        return
+    import importlib
+    import pkgutil
+
+    import reamber
+
+    for pkg in ("reamber.base", "reamber.osu", "reamber.quaver", "reamber.sm", "reamber.bms", "reamber.o2jam",
+                "reamber.algorithms.convert", "reamber.algorithms.timing", "reamber.algorithms.generate",
+                "reamber.algorithms.osu", "reamber.algorithms.utils", "reamber.algorithms.analysis", "reamber.algorithms.pattern"):
+        try:
+            m = importlib.import_module(pkg)
+        except Exception:
+            continue
+        for info in pkgutil.walk_packages(getattr(m, "__path__", []), pkg + "."):
+            try:
+                importlib.import_module(info.name)
+            except Exception:
+                pass
+    from . import scenarios, ops  # noqa: F401
+    from .ops import files, twins, pipeline, algs, maps, lists  # noqa: F401
+    import yaml  # noqa: F401
+    _PREIMPORTED[0] = True
+
+
+def _run_isolated(fn, timeout_s: float):
+    """Run fn() in a forked child and return its (picklable) result: every session starts from the pristine state of
+    the worker process - process-global state inside the library (caches, class attributes) set by one session cannot
+    leak into the next, and one seed is one repeatable execution whatever ran before it in the batch."""
+    import pickle
+    import select
+    import signal
+
+    r, w = os.pipe()
+    pid = os.fork()
+    if pid == 0:
+        code = 0
+        try:
+            os.close(r)
+            data = pickle.dumps(fn(), protocol=pickle.HIGHEST_PROTOCOL)
+            with os.fdopen(w, "wb") as f:
+                f.write(data)
+        except BaseException as e:  # noqa
+            try:
+                sys.stderr.write(f"isolated session child failed: {type(e).__name__}: {e}\n")
+            except Exception:
+                pass
+            code = 3
+        finally:
+            os._exit(code)
+    os.close(w)
+    chunks = []
+    deadline = time.time() + timeout_s
+    with os.fdopen(r, "rb") as f:
+        while True:
+            left = deadline - time.time()
+            if left <= 0:
+                os.kill(pid, signal.SIGKILL)
+                os.waitpid(pid, 0)
+                raise HarnessError(f"isolated session did not finish within {timeout_s:.0f} s")
+            ready, _, _ = select.select([f], [], [], min(left, 5.0))
+            if ready:
+                b = f.read(1 << 20)
+                if not b:
+                    break
+                chunks.append(b)
+    _, status = os.waitpid(pid, 0)
+    if not chunks:
+        raise HarnessError(f"isolated session child exited with status {status} and no result")
+    return pickle.loads(b"".join(chunks))
+
+
+def _one_session(prop, tier, base, i, sample):
+    seed = session_seed(base, prop, i)
+    t0 = time.perf_counter()
+    try:
+        sess = S.generate_and_run(prop, seed, tier)
+    except HarnessError as e:
+        return dict(i=i, seed=seed, harness_error=str(e)[:4000])
+    except RecursionError as e:
+        return dict(i=i, seed=seed, harness_error="RecursionError " + str(e)[:500])
+    return _session_record(prop, sess, i, seed, t0, sample)
+
+
 def _worker(args):
     prop, tier, base, lo, hi = args
     faulthandler.enable()
+    from .engine import OP_TIMEOUT_S
+
+    isolate = os.environ.get("VERIF_SESSION_FORK", "1") != "0"
+    if isolate:
+        _preimport()
     out = []
     for i in range(lo, hi):
-        seed = session_seed(base, prop, i)
-        t0 = time.perf_counter()
-        try:
-            sess = S.generate_and_run(prop, seed, tier)
-        except HarnessError as e:
-            out.append(dict(i=i, seed=seed, harness_error=str(e)[:4000]))
-            continue
-        except RecursionError as e:
-            out.append(dict(i=i, seed=seed, harness_error="RecursionError " + str(e)[:500]))
-            continue
+        if isolate:
+            try:
+                out.append(_run_isolated(lambda: _one_session(prop, tier, base, i, i < lo + 1), 120 + 40 * 2 * max(OP_TIMEOUT_S, 1)))
+            except HarnessError as e:
+                out.append(dict(i=i, seed=session_seed(base, prop, i), harness_error=str(e)[:4000]))
+        else:
+            out.append(_one_session(prop, tier, base, i, i < lo + 1))
+    return out
+
+
+def _session_record(prop, sess, i, seed, t0, sample):
+    if True:
         own = [v for v in sess.violations if v.prop == prop]
         foreign = [v for v in sess.violations if v.prop != prop]
         rec = dict(
@@ -62,10 +159,9 @@ def _worker(args):
         if own:
             v = own[0]
             rec["violation"] = dict(klass=v.klass4(), v=v.to_json(), ops=jsonable(sess.oplog), knobs=jsonable(sess.knobs))
-        if i < lo + 1:
+        if sample:
             rec["sample_ops"] = jsonable(sess.oplog)
-        out.append(rec)
-    return out
+        return rec
 
 
 def _minimise_job(args):
